@@ -17,6 +17,7 @@ func C13(p *load.Prog, r *report.Report) {
 		r.Undecided("C13.model", "layout", "", err.Error())
 		return
 	}
+	m.stateGuard(r, "C13", false, true)
 	s, t := absint.FieldSym(FN, "s"), absint.FieldSym(FN, "t")
 	cs, ct := absint.CanonOf(FN, s), absint.CanonOf(FN, t)
 	// LessOrEqual
